@@ -1260,3 +1260,147 @@ func init() {
 		Doc: "compile.stackDepthWalk walks the destination of every jump instruction: neither the recursive call nor an exit from the iteration that precedes it is governed by a condition naming an opcode",
 		Run: runDepthWalkFollows})
 }
+
+// ---- C03.R2: the symbol-table builder visits what the generic walk would have visited ----
+//
+// symtable.Parse drives ast.Walk and, for the nodes that open a scope, returns false — the walk stops and the arm visits
+// the children by hand, some in the enclosing table and some in the new one. A child that the arm forgets is visited by
+// nobody: its names never reach a symbol table and the compiler later fails on them (or resolves them in the wrong
+// scope). The rule cross-checks the two siblings: for every arm of Parse that stops the walk, every field of the node
+// that ast.Walk's arm for the same type walks is handed on by Parse's arm (as an argument of a call or the operand of a
+// range).
+func runSymtableVisitsAll(c *Ctx, r *Rep) {
+	walkFd := c.FuncDeclX("ast", "Walk")
+	parseFd := c.MethodDeclX("symtable", "SymTable", "Parse")
+	if walkFd == nil || parseFd == nil {
+		r.undecided("symtable|Parse|anchors", token.NoPos, "ast.Walk or symtable.(*SymTable).Parse not found")
+		return
+	}
+	astInfo := c.MustPkg("ast").TypesInfo
+	stInfo := c.MustPkg("symtable").TypesInfo
+	// fields of the switched node selected anywhere in a clause / handed on in a clause
+	fieldsOf := func(info *types.Info, cc *ast.CaseClause, sw *ast.TypeSwitchStmt, handedOnly bool) map[string]bool {
+		out := map[string]bool{}
+		obj := info.Implicits[cc]
+		if obj == nil {
+			return out
+		}
+		sel := func(e ast.Node) {
+			ast.Inspect(e, func(n ast.Node) bool {
+				if s, ok := n.(*ast.SelectorExpr); ok {
+					if id := identOf(s.X); id != nil && info.Uses[id] == obj {
+						out[s.Sel.Name] = true
+					}
+				}
+				return true
+			})
+		}
+		for _, st := range cc.Body {
+			if !handedOnly {
+				sel(st)
+				continue
+			}
+			ast.Inspect(st, func(n ast.Node) bool {
+				switch x := n.(type) {
+				case *ast.CallExpr:
+					if exprStr(x.Fun) == "len" {
+						return false
+					}
+					for _, a := range x.Args {
+						sel(a)
+					}
+				case *ast.RangeStmt:
+					sel(x.X)
+				}
+				return true
+			})
+		}
+		return out
+	}
+	typeSwitchOf := func(fd *ast.FuncDecl) *ast.TypeSwitchStmt {
+		var ts *ast.TypeSwitchStmt
+		ast.Inspect(fd.Body, func(n ast.Node) bool {
+			if x, ok := n.(*ast.TypeSwitchStmt); ok && (ts == nil || len(x.Body.List) > len(ts.Body.List)) {
+				ts = x
+			}
+			return true
+		})
+		return ts
+	}
+	wsw, psw := typeSwitchOf(walkFd), typeSwitchOf(parseFd)
+	if wsw == nil || psw == nil {
+		r.undecided("symtable|Parse|type switch", token.NoPos, "type switch over the node not found in ast.Walk or symtable.Parse")
+		return
+	}
+	walked := map[string]map[string]bool{}
+	for _, cl := range wsw.Body.List {
+		cc := cl.(*ast.CaseClause)
+		if len(cc.List) != 1 {
+			continue
+		}
+		walked[types.ExprString(cc.List[0])] = fieldsOf(astInfo, cc, wsw, false)
+	}
+	n := 0
+	for _, cl := range psw.Body.List {
+		cc := cl.(*ast.CaseClause)
+		stops := false
+		for _, st := range cc.Body {
+			ast.Inspect(st, func(nd ast.Node) bool {
+				if _, ok := nd.(*ast.FuncLit); ok {
+					return false
+				}
+				if rs, ok := nd.(*ast.ReturnStmt); ok && len(rs.Results) == 1 && exprStr(rs.Results[0]) == "false" {
+					stops = true
+				}
+				return true
+			})
+		}
+		if !stops {
+			continue
+		}
+		if len(cc.List) != 1 {
+			r.undecided("symtable|Parse|arm "+exprStr(&ast.CompositeLit{Elts: cc.List}), cc.Pos(), "an arm that stops the walk covers several node types: cannot compare its visits with ast.Walk's")
+			continue
+		}
+		tn := strings.TrimPrefix(types.ExprString(cc.List[0]), "*ast.")
+		want := walked["*"+tn]
+		if want == nil {
+			r.undecided("symtable|Parse|arm "+tn, cc.Pos(), "ast.Walk has no single-type arm for *%s to compare with", tn)
+			continue
+		}
+		got := fieldsOf(stInfo, cc, psw, true)
+		var missing []string
+		for f := range want {
+			if !got[f] {
+				missing = append(missing, f)
+			}
+		}
+		sort.Strings(missing)
+		n++
+		r.check(len(missing) == 0, "symtable|Parse|arm "+tn+" visits what ast.Walk walks", cc.Pos(),
+			fmt.Sprintf("hands on every field ast.Walk walks for *ast.%s (%s)", tn, strings.Join(sortedKeys(want), ", ")),
+			fmt.Sprintf("the arm for *ast.%s stops the generic walk (returns false) but does not hand on %s, which ast.Walk would have walked: the names in it reach no symbol table, so the compiler cannot resolve them (SystemError \"no symtable entry\" / wrong scope)", tn, strings.Join(missing, ", ")))
+	}
+	if n == 0 {
+		r.undecided("symtable|Parse|arms", psw.Pos(), "no arm of symtable.Parse stops the walk: the scope-opening nodes are expected to")
+	}
+}
+
+func init() {
+	register(&Rule{ID: "C03.R2", Prop: "C03", Floor: 7,
+		Doc: "sibling cross-check of the two traversals: every arm of symtable.Parse that stops ast.Walk (the scope-opening nodes) hands on — as a call argument or range operand — every field of the node that ast.Walk's arm for the same type walks",
+		Run: runSymtableVisitsAll})
+	// the same obligation under C11: a forgotten child surfaces as SystemError from the compiler, not SyntaxError
+	register(&Rule{ID: "C11.R13", Prop: "C11", Floor: 7,
+		Doc: "(= C03.R2) every arm of symtable.Parse that stops ast.Walk hands on every field ast.Walk walks for that node: a child nobody visits has no symbol-table entry and the compiler panics on it (SystemError for well-formed source)",
+		Run: runSymtableVisitsAll})
+}
+
+func sortedKeys(m map[string]bool) []string {
+	var o []string
+	for k := range m {
+		o = append(o, k)
+	}
+	sort.Strings(o)
+	return o
+}
